@@ -32,14 +32,17 @@ def rule_F1(ctx, entries: List[Tuple[str, Optional[List[str]]]], label: str, rul
             ctx.require(p in f.all_params, rule, q, f"parameter `{p}` not found")
             idx = f.all_params.index(p)
             n += 1
-            ev = s.mutates.get(idx)
-            if ev is None:
+            evs = s.all_mutations.get(idx, [])
+            if not evs:
                 ctx.ok(rule, f"{_short(q)}({p}): not mutated")
                 continue
-            path = [_short(x) for x in ev["path"]]
-            root = path[-1]
-            ctx.check(False, rule, f"{_short(q)}({p})", func=f, node=ev["node"], construct=f"mutates:{p}:via:{root}",
-                      msg=f"read-only entry point {_short(q)} mutates its argument `{p}`: {ev['desc'][:220]}", path=path)
+            for ev in evs:
+                path = [_short(x) for x in ev["path"]]
+                root_fn = path[-1]
+                what = ev["root"].split("|", 1)[1] if "|" in ev["root"] else ""
+                ctx.check(False, rule, f"{_short(q)}({p}) via {root_fn}: {what[:40]}", func=f, node=ev["node"],
+                          construct=f"mutates:{p}:via:{root_fn}:{what[:40]}",
+                          msg=f"read-only entry point {_short(q)} mutates its argument `{p}`: {ev['desc'][:220]}", path=path)
     ctx.floor(rule, f"{label}: (entry, parameter) pairs", n, max(1, len(entries)))
 
 
